@@ -682,8 +682,9 @@ def opBipReload (args : List String) : String :=
 def opBipFromPub (args : List String) : String :=
   match args.mapM ofHex with
   | some [xb, yb, cc] =>
-    (if cc.length ≠ 32 then "err"
-     else "ok " ++ toHex ((if beNat yb % 2 = 1 then (0x03 : UInt8) else 0x02) :: be32 (beNat xb))) ++ "\t="
+    (match fromPublicKey (beNat xb) (beNat yb) cc with
+     | .error _ => "err"
+     | .ok k => "ok " ++ toHex k.keyData) ++ "\t="
   | _ => "bad-args"
 
 def opBipUnmarshal (args : List String) : String :=
